@@ -18,8 +18,16 @@ CURVE = {"ECDH-ES+A256KW": "OKP:X25519"}
 PT = b"plaintext that travels \x00\xff"
 
 
-def replay_case(case, alg, enc, ser, nrec):
+PT_ZIP = b"compressible plaintext that travels " * 60
+PT_BIG = b"beyond the limit " * 18000          # 306,000 octets: decrypting must be refused, whatever the object went through
+ZIP_CONFIGS = [("A128KW", "A128GCM"), ("dir", "A256CBC-HS512"), ("ECDH-ES+A128KW", "A256GCM")]
+
+
+def replay_case(case, alg, enc, ser, nrec, zipped=None):
+    """zipped: None (no zip), "small" or "big" plaintext under zip=DEF"""
     from joserfc import jwe
+    from joserfc.errors import ExceededSizeError
+    PT = globals()["PT"] if zipped is None else (PT_ZIP if zipped == "small" else PT_BIG)
     out = []
     J.register_drafts({"1pu"})
     rj = K.get(K.jwe_key_kind(alg, enc) if not alg.startswith("ECDH") else CURVE.get(alg, "EC:P-256"), 0)
@@ -27,12 +35,14 @@ def replay_case(case, alg, enc, ser, nrec):
     sj = K.get(CURVE.get(alg, "EC:P-256"), 1) if "1PU" in alg else None
     ekw = {"sender_key": J.jkey(sj)} if sj else {}
     dkw = {"sender_key": J.jkey(J.pub(sj))} if sj else {}
-    reg = jwe.JWERegistry(algorithms=[alg, enc])
+    reg = jwe.JWERegistry(algorithms=[alg, enc, "DEF"])
     if case["origin"] == "pinned" and not alg.startswith("ECDH"):
         return out                                    # only key agreement has an ephemeral key to pin
     if case["origin"] == "parsed" and sj:
         return out                                    # whoever parsed an ECDH-1PU token holds the sender's public key only: it cannot encrypt as the sender
-    hdr0 = {"alg": alg, "enc": enc, **({"p2c": 8} if alg.startswith("PBES2") else {})}
+    hdr0 = {"alg": alg, "enc": enc, **({"p2c": 8} if alg.startswith("PBES2") else {}), **({"zip": "DEF"} if zipped else {})}
+    if zipped == "big" and case["origin"] == "parsed":
+        return out                                    # a token beyond the limit cannot be parsed in the first place
     if case["origin"] in ("built", "pinned"):
         cls = jwe.FlattenedJSONEncryption if ser == "flattened" else jwe.GeneralJSONEncryption
         obj = cls(dict(hdr0), PT, None, b"aad v1")
@@ -65,6 +75,23 @@ def replay_case(case, alg, enc, ser, nrec):
                 epk = h.get("epk")
                 if isinstance(epk, dict) and set(epk) & {"d", "p", "q", "dp", "dq", "qi", "oth", "k"}:
                     out.append(("C12", f"step {i}: the epk header carries {sorted(set(epk) & {'d', 'p', 'q', 'dp', 'dq', 'qi', 'oth', 'k'})}", ""))
+            if obj.plaintext != PT:
+                out.append(("C04", f"step {i}: encrypt_json changed the caller's plaintext ({len(obj.plaintext or b'')} octets now)", ""))
+            if zipped == "big":
+                # C17: every token made from the over-limit plaintext is refused when consumed; an independent consumer without a limit gets it back
+                try:
+                    got = jwe.decrypt_json(tok, priv, registry=reg, **dkw).plaintext
+                    out.append(("C17", f"step {i}: a token whose plaintext inflates beyond the limit was decrypted ({len(got)} octets returned)", ""))
+                except ExceededSizeError:
+                    pass
+                except Exception as e:  # noqa
+                    out.append(("C17", f"step {i}: over-limit token: {type(e).__name__} instead of the exceeded-size error", str(e)[:60]))
+                try:
+                    if R.jwe_decrypt(tok, rj, sender=J.pub(sj) if sj else None, limit=None)[1] != PT:
+                        out.append(("C17", f"step {i}: the over-limit token does not carry the plaintext once compressed", ""))
+                except Exception as e:  # noqa
+                    out.append(("C17", f"step {i}: an independent implementation cannot decrypt the over-limit token ({type(e).__name__})", str(e)[:60]))
+                continue
             try:
                 hdr, pt = R.jwe_decrypt(tok, rj, sender=J.pub(sj) if sj else None)
                 if pt != PT:
@@ -93,24 +120,27 @@ def run(ctx: Ctx, prop: str) -> int:
     if len(cases) < 20:
         raise MachineryError(f"JweReuse export too small: {len(cases)}")
     n = 0
-    for alg, enc in CONFIGS:
+    plan = [(a, e, None) for a, e in CONFIGS] if prop != "C17" else []
+    plan += [(a, e, "small") for a, e in ZIP_CONFIGS] if prop in ("C04", "C08") else []
+    plan += [(a, e, "big") for a, e in ZIP_CONFIGS[:2]] if prop == "C17" else []
+    for alg, enc, zipped in plan:
         for ser, nrec in (("flattened", 1), ("general", 1), ("general", 2)):
             if nrec == 2 and alg in ("dir", "ECDH-ES", "ECDH-1PU"):
                 continue
             for c in cases:
                 n += 1
-                ctx.nontrivial.add(f"reuse:{alg}:{ser}{nrec}:" + json.dumps(c, sort_keys=True))
-                for p, what, detail in replay_case(c, alg, enc, ser, nrec):
+                ctx.nontrivial.add(f"reuse:{alg}:{zipped}:{ser}{nrec}:" + json.dumps(c, sort_keys=True))
+                for p, what, detail in replay_case(c, alg, enc, ser, nrec, zipped):
                     if p != prop:
                         continue
-                    ctx.violation(f"reuse:{what.split(': ', 1)[-1]} [{alg} {enc} {ser} x{nrec}] origin={c['origin']} history=[{' '.join(c['hist'])}]",
-                                  {"case": c, "alg": alg, "enc": enc, "ser": ser, "nrec": nrec, "what": what, "detail": detail, "reuse": True})
+                    ctx.violation(f"reuse:{what.split(': ', 1)[-1]} [{alg} {enc}{' zip=DEF' if zipped else ''} {ser} x{nrec}] origin={c['origin']} history=[{' '.join(c['hist'])}]",
+                                  {"case": c, "alg": alg, "enc": enc, "ser": ser, "nrec": nrec, "zipped": zipped, "what": what, "detail": detail, "reuse": True})
     ctx.notes["reuse_histories"] = {"model_histories": len(cases), "replays": n}
     return n
 
 
 def replay(ctx: Ctx, rec: dict) -> None:
-    out = replay_case(rec["case"], rec["alg"], rec["enc"], rec["ser"], rec["nrec"])
+    out = replay_case(rec["case"], rec["alg"], rec["enc"], rec["ser"], rec["nrec"], rec.get("zipped"))
     print(json.dumps(rec["case"]), "->", out)
     if any(p == ctx.prop for p, *_ in out):
         ctx.violation(rec["signature"], {"now": out})
